@@ -52,7 +52,7 @@ def with_child(v, key, nv):
         if k == "len":
             return VVec(nv.lin, v.segs, v.elems, v.name, v.elem_ty, v.marks)
         if k == "content":
-            return VVec(v.len, None, None, v.name, v.elem_ty, None)
+            return VVec(v.len, None, None, (v.name or "vec") + "~", v.elem_ty, None)
         es = list(v.elems)
         es[key[1]] = nv
         return VVec(v.len, v.segs, tuple(es), v.name, v.elem_ty, v.marks)
@@ -124,7 +124,7 @@ class MemMixin:
             i = el[1]
             if isinstance(v, (VArr, VVec)) and v.elems is not None and i < len(v.elems):
                 return v.elems[i]
-            return self.unknown_elem(st, v)
+            return self.unknown_elem(st, v, i)
         if k == "ei":
             if isinstance(v, (VArr, VVec)) and v.elems is not None and el[1].is_const():
                 i = el[1].c
@@ -133,8 +133,11 @@ class MemMixin:
             return self.unknown_elem(st, v)
         raise Abort("project %r" % (el,))
 
-    def unknown_elem(self, st, v):
+    def unknown_elem(self, st, v, idx=None):
         ety = getattr(v, "elem_ty", None)
+        if isinstance(v, VVec) and ety is not None and idx is not None and v.name and self.T(ety)["k"] == "adt":
+            # deterministic symbolic element: repeated reads of the same element agree
+            return self.symval(st, ety, "%s[%s]" % (v.name, idx))
         if ety is None:
             ety = self.u8_ty()
         return self.new_int(ety, "elem") if self.T(ety)["k"] == "int" else VUnknown(ety, self.fresh("elem"))
@@ -210,7 +213,9 @@ class MemMixin:
                 return VArr(v.n, None, self.fresh("arr"), None)
             if isinstance(v, VVec):
                 self.vec_elem_write(st, v, el, val)
-                return VVec(v.len, None, None, v.name, v.elem_ty, self.marks_after_write(st, v, el))
+                if isinstance(val, VAdt) and val.base and v.name and val.base.startswith(v.name + "["):
+                    return v        # write-back of a lazily materialised element: content unchanged
+                return VVec(v.len, None, None, (v.name or "vec") + "'", v.elem_ty, self.marks_after_write(st, v, el))
             return VUnknown(None, self.fresh("clob"))
         raise Abort("updated %r" % (el,))
 
